@@ -78,7 +78,23 @@ func intersectLocks(cand, held map[*mutexState]int, write bool) map[*mutexState]
 // lock would otherwise be invisible. Accesses by the harness thread (id 0) are ordered by
 // go/join and are not counted.
 func (m *machine) noteMap(fr *frame, mp *omap, write bool) {
-	if !m.raceOn || mp == nil || fr == nil || fr.th == nil || fr.th.id == 0 || m.raceSeen {
+	if mp == nil {
+		return
+	}
+	m.noteObj(fr, mp, write, "data-race:map-accessed-by-two-goroutines-without-a-common-lock")
+}
+
+// noteCell: the same discipline for memory cells reached through pointers (struct fields,
+// escaping variables): loads and stores of spawned goroutines while the check is on.
+func (m *machine) noteCell(fr *frame, p *value, write bool) {
+	if p == nil {
+		return
+	}
+	m.noteObj(fr, p, write, "data-race:memory-accessed-by-two-goroutines-without-a-common-lock")
+}
+
+func (m *machine) noteObj(fr *frame, mp any, write bool, label string) {
+	if !m.raceOn || fr == nil || fr.th == nil || fr.th.id == 0 || m.raceSeen {
 		return
 	}
 	held := fr.th.held
@@ -87,7 +103,7 @@ func (m *machine) noteMap(fr *frame, mp *omap, write bool) {
 		site = fr.fn.String()
 	}
 	if m.mapAcc == nil {
-		m.mapAcc = map[*omap]*mapState{}
+		m.mapAcc = map[any]*mapState{}
 	}
 	st := m.mapAcc[mp]
 	if st == nil {
@@ -118,7 +134,7 @@ func (m *machine) noteMap(fr *frame, mp *omap, write bool) {
 	}
 	if st.shared && st.modified && len(st.cand) == 0 {
 		m.raceSeen = true
-		m.recordViolation("data-race:map-accessed-by-two-goroutines-without-a-common-lock", "race",
+		m.recordViolation(label, "race",
 			map[string]string{"earlier": st.lastSite, "now": site})
 		return
 	}
